@@ -1,12 +1,438 @@
-//! C16 - not implemented yet
-use crate::common::Report;
+//! C16 - comparison operations (Equal, NotEqual, LessThan, LessThanEqualTo, GreaterThan,
+//! GreaterThanEqualTo, Min, Max) on bit strings equal native integer comparison.
+//!
+//! One graph per (operation, signedness, width, operand shapes, inline mode), built with the real
+//! builder, instantiated and inlined with the real passes, evaluated with the real evaluator on
+//! arrays that hold all operand pairs at once. Oracle: `u128` / sign-extended `i128` comparison.
+pub mod bits;
 
-pub fn run(_r: &Report) -> i32 {
-    println!("MACHINERY-ERROR property=C16 check not implemented");
-    2
+use crate::common::Report;
+use bits::*;
+use ciphercore_base::custom_ops::CustomOperation;
+use ciphercore_base::ops::comparisons::{
+    Equal, GreaterThan, GreaterThanEqualTo, LessThan, LessThanEqualTo, NotEqual,
+};
+use ciphercore_base::ops::min_max::{Max, Min};
+use rayon::prelude::*;
+use serde_json::{json, Value as J};
+use std::cmp::Ordering;
+
+#[derive(Clone, Copy, PartialEq, Eq, Debug)]
+enum Cmp {
+    Eq,
+    Ne,
+    Lt,
+    Le,
+    Gt,
+    Ge,
+    Min,
+    Max,
 }
 
-pub fn replay(_r: &Report, _rec: &serde_json::Value) -> i32 {
-    println!("MACHINERY-ERROR property=C16 replay not implemented");
-    2
+const ALL_OPS: [Cmp; 8] = [Cmp::Eq, Cmp::Ne, Cmp::Lt, Cmp::Le, Cmp::Gt, Cmp::Ge, Cmp::Min, Cmp::Max];
+
+impl Cmp {
+    fn name(&self) -> &'static str {
+        match self {
+            Cmp::Eq => "eq",
+            Cmp::Ne => "ne",
+            Cmp::Lt => "lt",
+            Cmp::Le => "le",
+            Cmp::Gt => "gt",
+            Cmp::Ge => "ge",
+            Cmp::Min => "min",
+            Cmp::Max => "max",
+        }
+    }
+    fn from_name(s: &str) -> Option<Cmp> {
+        ALL_OPS.iter().copied().find(|o| o.name() == s)
+    }
+    /// Equal / NotEqual have no signedness parameter
+    fn has_sign_flag(&self) -> bool {
+        !matches!(self, Cmp::Eq | Cmp::Ne)
+    }
+    fn is_minmax(&self) -> bool {
+        matches!(self, Cmp::Min | Cmp::Max)
+    }
+    fn custom(&self, signed: bool) -> CustomOperation {
+        match self {
+            Cmp::Eq => CustomOperation::new(Equal {}),
+            Cmp::Ne => CustomOperation::new(NotEqual {}),
+            Cmp::Lt => CustomOperation::new(LessThan { signed_comparison: signed }),
+            Cmp::Le => CustomOperation::new(LessThanEqualTo { signed_comparison: signed }),
+            Cmp::Gt => CustomOperation::new(GreaterThan { signed_comparison: signed }),
+            Cmp::Ge => CustomOperation::new(GreaterThanEqualTo { signed_comparison: signed }),
+            Cmp::Min => CustomOperation::new(Min { signed_comparison: signed }),
+            Cmp::Max => CustomOperation::new(Max { signed_comparison: signed }),
+        }
+    }
+}
+
+/// the oracle: native comparison of the encoded integers
+fn oracle(op: Cmp, signed: bool, w: u32, x: u128, y: u128) -> u128 {
+    let ord = if signed { sext(x, w).cmp(&sext(y, w)) } else { x.cmp(&y) };
+    match op {
+        Cmp::Eq => (ord == Ordering::Equal) as u128,
+        Cmp::Ne => (ord != Ordering::Equal) as u128,
+        Cmp::Lt => (ord == Ordering::Less) as u128,
+        Cmp::Le => (ord != Ordering::Greater) as u128,
+        Cmp::Gt => (ord == Ordering::Greater) as u128,
+        Cmp::Ge => (ord != Ordering::Less) as u128,
+        Cmp::Min => {
+            if ord == Ordering::Greater {
+                y
+            } else {
+                x
+            }
+        }
+        Cmp::Max => {
+            if ord == Ordering::Greater {
+                x
+            } else {
+                y
+            }
+        }
+    }
+}
+
+#[derive(Clone, Debug)]
+struct Spec {
+    op: Cmp,
+    signed: bool,
+    w: u32,
+    layout: &'static str,
+    mode: &'static str,
+    /// the thorough tier uses the larger pair alphabet for w > 8
+    full: bool,
+}
+
+const LAYOUTS: [&str; 6] = ["paired", "outer", "single", "b3", "b3r", "b213"];
+
+impl Spec {
+    fn key(&self) -> String {
+        format!(
+            "{}:{}:w{}:{}:{}",
+            self.op.name(),
+            if self.signed { "signed" } else { "unsigned" },
+            self.w,
+            self.layout,
+            self.mode
+        )
+    }
+    fn json(&self) -> J {
+        json!({"op": self.op.name(), "signed": self.signed, "w": self.w, "layout": self.layout, "mode": self.mode, "full": self.full})
+    }
+    fn from_json(j: &J) -> Option<Spec> {
+        let layout = j.get("layout")?.as_str()?;
+        let mode = j.get("mode")?.as_str()?;
+        Some(Spec {
+            op: Cmp::from_name(j.get("op")?.as_str()?)?,
+            signed: j.get("signed")?.as_bool()?,
+            w: j.get("w")?.as_u64()? as u32,
+            layout: LAYOUTS.iter().copied().find(|l| *l == layout)?,
+            mode: ["simple", "depth"].iter().copied().find(|m| *m == mode)?,
+            full: j.get("full").and_then(|f| f.as_bool()).unwrap_or(false),
+        })
+    }
+}
+
+/// operand pairs of the "paired" layout: all 2^(2w) pairs for w <= 8, otherwise the pair alphabet
+/// {all pairs of the value alphabet (equal, adjacent around 0 / 2^(w-1) / 2^w-1, all-ones/zero);
+///  for every bit i, both orders: patterned base vs base with exactly bit i flipped; 2^i vs 0;
+///  operands equal above bit i whose lower bits contradict bit i}
+fn pair_list_full(w: u32) -> (Vec<u128>, Vec<u128>) {
+    pair_list(w, true)
+}
+
+fn pair_list_quick(w: u32) -> (Vec<u128>, Vec<u128>) {
+    pair_list(w, false)
+}
+
+fn pair_list(w: u32, full: bool) -> (Vec<u128>, Vec<u128>) {
+    let mut a = vec![];
+    let mut b = vec![];
+    if w <= 8 {
+        let m = 1u128 << w;
+        for x in 0..m {
+            for y in 0..m {
+                a.push(x);
+                b.push(y);
+            }
+        }
+        return (a, b);
+    }
+    let v = value_alphabet(w);
+    for x in v.iter() {
+        for y in v.iter() {
+            a.push(*x);
+            b.push(*y);
+        }
+    }
+    let m = mask(w);
+    let p55 = 0x5555_5555_5555_5555_5555_5555_5555_5555u128 & m;
+    for i in 0..w {
+        let bit = 1u128 << i;
+        let below = bit - 1;
+        // (1) patterned base vs. the same with exactly bit i flipped
+        // (2) adversarial: equal above bit i, x has bit i clear and ALL lower bits set, y has bit i set
+        //     and all lower bits clear - the lower bits contradict the deciding bit
+        // (3, thorough tier only) power of two vs. zero (all higher and lower bits equal and zero)
+        let hi = p55 & !(bit | below);
+        for (fam, (x, y)) in [(p55, p55 ^ bit), (hi | below, hi | bit), (0, bit)].into_iter().enumerate() {
+            if fam == 2 && !full {
+                continue;
+            }
+            a.push(x);
+            b.push(y);
+            a.push(y);
+            b.push(x);
+        }
+    }
+    (a, b)
+}
+
+fn run_job(spec: &Spec) -> JobOut {
+    let mut out = JobOut::default();
+    let w = spec.w;
+    let sgn = if spec.signed { "signed" } else { "unsigned" };
+    let sig = |kind: &str| format!("C16:{}:{}:{}:{}", spec.op.name(), sgn, kind, spec.layout);
+    let (sa, sb, evals) = layout(w, spec.layout, if spec.full { pair_list_full } else { pair_list_quick });
+    let built = match build(spec.op.custom(spec.signed), &[bit_t(&sa), bit_t(&sb)], spec.mode) {
+        Ok(b) => b,
+        Err(e) => {
+            // the only documented restriction: signed operands need a sign bit and a magnitude bit
+            if spec.signed && w == 1 && e.contains("less than 2 bits") {
+                out.count("signed_w1_rejected_as_documented", 1);
+            } else {
+                out.violation(
+                    &sig("rejected"),
+                    format!("{} rejected for shapes {:?} x {:?}: {}", spec.key(), sa, sb, e),
+                    json!({"spec": spec.json(), "error": e}),
+                );
+            }
+            return out;
+        }
+    };
+    out.distinct.push(spec.key());
+    out.count("graphs_built", 1);
+    out.count("graph_nodes", built.nodes);
+    let la = &sa[..sa.len() - 1];
+    let lb = &sb[..sb.len() - 1];
+    let lead = bcast_shape(la, lb).expect("layout shapes broadcast");
+    let n = numel(&lead);
+    let exp_t = if spec.op.is_minmax() {
+        let mut s = lead.clone();
+        s.push(w as u64);
+        bit_t(&s)
+    } else {
+        bit_t(&lead)
+    };
+    if built.out_t != exp_t {
+        out.violation(
+            &sig("type"),
+            format!("{}: output type {} instead of {}", spec.key(), built.out_t, exp_t),
+            json!({"spec": spec.json(), "observed_type": format!("{}", built.out_t), "expected_type": format!("{}", exp_t)}),
+        );
+        return out;
+    }
+    let broadcasting = la != lb;
+    let (mut n_true, mut n_false, mut n_sign, mut n_pairs) = (0u64, 0u64, 0u64, 0u64);
+    for (ei, (a, b)) in evals.iter().enumerate() {
+        out.count("graph_evaluations", 1);
+        let v = match eval(&built, &[pack_words(a, w), pack_words(b, w)]) {
+            Ok(v) => v,
+            Err(e) => {
+                out.violation(
+                    &sig("eval-error"),
+                    format!("{}: evaluation failed: {}", spec.key(), e),
+                    json!({"spec": spec.json(), "evaluation": ei, "a": hex_list(a), "b": hex_list(b), "error": e}),
+                );
+                continue;
+            }
+        };
+        let got = if spec.op.is_minmax() { unpack_words(&v, n, w) } else { unpack_bits(&v, n) };
+        let got = match got {
+            Some(g) => g,
+            None => {
+                out.violation(
+                    &sig("layout"),
+                    format!("{}: output value does not have the layout of {}", spec.key(), exp_t),
+                    json!({"spec": spec.json(), "evaluation": ei, "a": hex_list(a), "b": hex_list(b)}),
+                );
+                continue;
+            }
+        };
+        for idx in 0..n {
+            let x = a[bcast_index(&lead, idx, la)];
+            let y = b[bcast_index(&lead, idx, lb)];
+            let exp = oracle(spec.op, spec.signed, w, x, y);
+            n_pairs += 1;
+            if spec.op.is_minmax() {
+                if x != y {
+                    if exp == x {
+                        n_true += 1
+                    } else {
+                        n_false += 1
+                    }
+                }
+            } else if exp == 1 {
+                n_true += 1
+            } else {
+                n_false += 1
+            }
+            if spec.signed && exp != oracle(spec.op, false, w, x, y) {
+                n_sign += 1;
+            }
+            if got[idx] != exp {
+                out.violation(
+                    &sig("wrong"),
+                    format!(
+                        "{} w={} {:?}x{:?} ({}): {}({}, {}) = {} but integer comparison gives {}",
+                        spec.op.name(), w, sa, sb, spec.mode, spec.op.name(),
+                        if spec.signed { sext(x, w).to_string() } else { x.to_string() },
+                        if spec.signed { sext(y, w).to_string() } else { y.to_string() },
+                        hex(got[idx]), hex(exp)
+                    ),
+                    json!({"spec": spec.json(), "evaluation": ei, "element": idx,
+                           "x": hex(x), "y": hex(y), "observed": hex(got[idx]), "expected": hex(exp),
+                           "a": hex_list(a), "b": hex_list(b)}),
+                );
+            }
+        }
+        if ei == 0 && !a.is_empty() {
+            out.samples.push(json!({"spec": spec.key(), "shapes": [sa, sb], "pairs_in_first_evaluation": n,
+                "first_pair": [hex(a[0]), hex(b[0])], "observed": hex(got[0])}));
+        }
+    }
+    out.count("evaluations", n_pairs);
+    if spec.op.is_minmax() {
+        out.count("minmax_first_operand_selected", n_true);
+        out.count("minmax_second_operand_selected", n_false);
+    } else {
+        out.count("result_true", n_true);
+        out.count("result_false", n_false);
+    }
+    out.count("sign_sensitive_pairs", n_sign);
+    if broadcasting {
+        out.count("broadcast_pairs", n_pairs);
+    }
+    if w <= 8 && (spec.layout == "paired" || spec.layout == "outer") {
+        out.count("exhaustive_sweeps", 1);
+    }
+    out
+}
+
+fn widths(thorough: bool) -> Vec<u32> {
+    if thorough {
+        (1..=128).collect()
+    } else {
+        let mut v: Vec<u32> = (1..=16).collect();
+        v.extend([31, 32, 33, 63, 64, 65, 127, 128]);
+        v
+    }
+}
+
+fn specs(thorough: bool) -> Vec<Spec> {
+    let mut out = vec![];
+    for w in widths(thorough) {
+        // the evaluator costs ~100 ns per bit and node, so the big arrays are rationed in the quick tier
+        let big_extra = if thorough { w <= 8 } else { w <= 6 };
+        let depth = thorough || big_extra || [13, 32, 65].contains(&w);
+        let mut cfgs = vec![
+            ("paired", "simple"),
+            ("single", "simple"),
+            ("b3", "simple"),
+            ("b3r", "simple"),
+            ("b213", "simple"),
+        ];
+        if w > 8 || big_extra {
+            cfgs.push(("outer", "simple"));
+        }
+        if depth {
+            cfgs.push(("paired", "depth"));
+        }
+        for (layout, mode) in cfgs {
+            for op in ALL_OPS {
+                for signed in [false, true] {
+                    if signed && !op.has_sign_flag() {
+                        continue;
+                    }
+                    out.push(Spec { op, signed, w, layout, mode, full: thorough });
+                }
+            }
+        }
+    }
+    out
+}
+
+pub fn run(r: &Report) -> i32 {
+    let sp = specs(r.tier.thorough());
+    let outs: Vec<JobOut> = sp.par_iter().map(run_job).collect();
+    for o in outs {
+        o.merge_into(r);
+    }
+    profile_report();
+    r.extra("widths", json!(widths(r.tier.thorough())));
+    r.finish(
+        "exploration",
+        "one graph per (operation in {eq,ne,lt,le,gt,ge,min,max}, signed/unsigned, width, operand-shape layout, \
+         inline mode); layouts: paired [P,w]x[P,w], outer [M,1,w]x[1,M,w], single [w]x[w], b3 [3,w]x[w], b3r [w]x[3,w], \
+         b213 [2,1,w]x[1,3,w]; for w<=8 paired and outer hold ALL 2^(2w) operand pairs, for w>8 the pair alphabet \
+         (all pairs of {0,1,2,-1,-2 around 0, 2^(w-1), 2^w-1; 0x55.., 0xAA..} plus, for every bit i and in both orders, \
+         base vs base^bit_i, operands whose lower bits contradict the deciding bit i, and (thorough tier) 2^i vs 0); \
+         quick tier: outer layout and depth-optimised inlining with all pairs only for w<=6 (thorough: w<=8); \
+         evaluations = operand pairs compared with the oracle; distinct = graph configurations built and evaluated",
+        true,
+        &[
+            "the evaluator is the library's SimpleEvaluator on the instantiated and inlined graph (plaintext semantics); secure compilation of these graphs is C02's subject",
+            "signed comparison of 1-bit strings is rejected by the library as documented (validate_signed_arguments) and is not counted as a violation",
+            "for widths above 8 operand values come from the boundary/bit-flip alphabet, not from all 2^(2w) pairs",
+        ],
+        &[
+            "evaluations",
+            "graphs_built",
+            "exhaustive_sweeps",
+            "result_true",
+            "result_false",
+            "minmax_first_operand_selected",
+            "minmax_second_operand_selected",
+            "sign_sensitive_pairs",
+            "broadcast_pairs",
+        ],
+    )
+}
+
+pub fn replay(_r: &Report, rec: &J) -> i32 {
+    let spec = match rec.get("case").and_then(|c| c.get("spec")).and_then(Spec::from_json) {
+        Some(s) => s,
+        None => {
+            println!("MACHINERY-ERROR property=C16 replay record has no usable case.spec");
+            return 2;
+        }
+    };
+    let want = rec.get("signature").and_then(|s| s.as_str()).unwrap_or("");
+    println!("replaying {} (all evaluations of this graph configuration)", spec.key());
+    let out = run_job(&spec);
+    let mut hit = 0;
+    for (sig, what, case) in out.violations.iter() {
+        println!("signature={} {}", sig, what);
+        if let Some(e) = case.get("error") {
+            println!("  expected=accepted and evaluated observed={}", e);
+        } else {
+            println!(
+                "  expected={} observed={}",
+                case.get("expected").or(case.get("expected_type")).unwrap_or(&J::Null),
+                case.get("observed").or(case.get("observed_type")).unwrap_or(&J::Null)
+            );
+        }
+        if want.is_empty() || sig == want {
+            hit = 1;
+        }
+    }
+    if hit == 1 {
+        println!("REPRODUCED property=C16 signature={}", want);
+    } else {
+        println!("NOT-REPRODUCED property=C16 signature={}", want);
+    }
+    hit
 }
